@@ -15,6 +15,8 @@ of each constructor:
         0 below / 1 above the support, dCdf/dx (library AD) = reference density
   wrap  log-transform / translation / mixture / iid / independent product
         against the composition rule applied to the base reference
+  mvwrap vector / matrix Mixture, VectorId, VectorIid with heterogeneous components against the composition rule applied
+        to the component values (logsumexp with the normalised weights / sum over blocks or rows)
   mv    multivariate normal, t, skew-normal, inverse Wishart, normal inverse
         Wishart against closed forms (cross-checked with scipy.stats at import)
 """
@@ -1226,6 +1228,80 @@ def do_mv(e, out):
                   {"family": fam, "params": {k[2:]: [Hx(s) for s in v] for k, v in e.items() if k.startswith('p_')}, "integral": mp.nstr(ql, 17)})
 
 
+
+# ---------------------------------------------------------------------------
+# wrappers over vector / matrix distributions: composition rule on the component values
+# ---------------------------------------------------------------------------
+
+def do_mvwrap(e, out):
+    fam = e['fam']
+    head = 'C14|%s|%s' % (fam, e['pclass'])
+    mix = fam in ('vmixture', 'mmixture')
+    if mix:
+        w = [M(s) for s in e['weights']]
+        tot = mp.fsum(w)
+        lw = [mp.log(x / tot) if x > 0 else NINF for x in w]
+    res = {}
+    npts = len(e['lpFloat64'])
+    for i in range(npts):
+        for ty in ('Float64', 'Real64'):
+            comp = [parse(s) for s in e['comp' + ty][i]]
+            got = parse(e['lp' + ty][i])
+            res[ty] = got
+            out.evals += 1
+            wit = {"wrapper": fam, "components": e.get('kinds'), "argument": (e.get('xv') or e.get('xm'))[i], "component values": e['comp' + ty][i],
+                   "type": ty, "observed": e['lp' + ty][i]}
+            if any(c[0] != 'v' for c in comp):
+                # a component rejects the argument (outside its support): the wrapper has to reject it as well or return -Inf
+                out.c('mvwrap:%s/component-rejects' % fam)
+                if got[0] == 'panic' or (got[0] == 'v' and (math.isnan(got[1]) or got[1] > -math.inf)):
+                    if got[0] == 'panic' or not mix:
+                        out.v(e['case'], head + '|outside|support', '%s over %s: a component rejects the argument (%s) but the wrapper returns %s' % (
+                            fam, e.get('kinds'), [c for c in e['comp' + ty][i] if not c.startswith(('0x', '-0x', '+', '-I', 'N'))][:1], e['lp' + ty][i]), wit)
+                continue
+            vals = [c[1] for c in comp]
+            if any(math.isnan(v) for v in vals):
+                out.c('mvwrap:%s/skip' % fam)
+                continue
+            if mix:
+                terms = [lw[j] + mpf(v) for j, v in enumerate(vals) if lw[j] > NINF and v > -math.inf]
+                if any(v == math.inf for v in vals):
+                    out.c('mvwrap:%s/skip' % fam)
+                    continue
+                if not terms:
+                    exp, tol = NINF, mpf(0)
+                else:
+                    m = max(terms)
+                    exp = m + mp.log(mp.fsum(sexp(t - m) for t in terms))
+                    tol = K_LP * EPS * (abs(exp) + max(abs(t) for t in terms) + max(abs(l) for l in lw if l > NINF) + len(terms) + 2)
+            else:
+                if any(v == -math.inf for v in vals) and any(v == math.inf for v in vals):
+                    out.c('mvwrap:%s/skip' % fam)
+                    continue
+                if any(math.isinf(v) for v in vals):
+                    exp, tol = (NINF if any(v == -math.inf for v in vals) else PINF), mpf(0)
+                else:
+                    exp = mp.fsum(mpf(v) for v in vals)
+                    tol = K_LP * EPS * (mp.fsum(abs(mpf(v)) for v in vals) + abs(exp))
+            out.c('mvwrap:%s/formula' % fam)
+            wit['expected'] = fmt(exp)
+            if got[0] != 'v':
+                out.v(e['case'], head + '|interior|' + ('panic' if got[0] == 'panic' else 'formula'),
+                      '%s over %s: LogPdf -> %s: %s (composition rule: %s)' % (fam, e.get('kinds'), got[0], got[1], fmt(exp)), wit)
+                continue
+            v = got[1]
+            ok = (not math.isnan(v)) and ((mp.isinf(exp) and v == float(exp)) or (mp.isfinite(exp) and not math.isinf(v) and abs(mpf(v) - exp) <= tol))
+            if not ok:
+                out.v(e['case'], head + '|interior|formula', '%s over %s: LogPdf = %r, composition rule on the component values gives %s (tolerance %s)' % (
+                    fam, e.get('kinds'), v, fmt(exp), mp.nstr(tol, 3)), wit)
+        a, b = res['Float64'], res['Real64']
+        out.c('type:compared')
+        if a == b:
+            out.c('type:bit-identical')
+        elif a[0] != b[0]:
+            out.v(e['case'], head + '|interior|type', 'Float64-held parameters give %s, Real64-held give %s' % (a, b), None)
+
+
 # ---------------------------------------------------------------------------
 # self check of the reference table (scipy.stats, mp.quad)
 # ---------------------------------------------------------------------------
@@ -1301,7 +1377,7 @@ def self_check():
 # driver interface
 # ---------------------------------------------------------------------------
 
-HANDLERS = {'pts': do_pts, 'quad': do_quad, 'cdf': do_cdf, 'wrap': do_wrap, 'mv': do_mv}
+HANDLERS = {'pts': do_pts, 'quad': do_quad, 'cdf': do_cdf, 'wrap': do_wrap, 'mv': do_mv, 'mvwrap': do_mvwrap}
 
 
 def judge_file(path):
